@@ -157,12 +157,23 @@ class CodecUnit(Unit):
         import numpy as np
         from openfilter.filter_runtime.mq import MQ as RMQ
         info = failure['extra']
-        frames = {}
-        for i, (k, ne) in enumerate(info['specs']):
-            f = F.native_frame(dict(kind=k[0], fmt=k[1], wr=k[2], jpgcached=k[3], caches=[]))
-            if not ne:
-                f = type(f)(f, {})
-            frames[('main', '_hidden')[i]] = f
+        obs = []
+        for strided in (False, True):
+            frames = {}
+            for i, (k, ne) in enumerate(info['specs']):
+                f = F.native_frame(dict(kind=k[0], fmt=k[1], wr=k[2], jpgcached=k[3], caches=[]))
+                if strided and f.has_image and f.has_raw and not f.has_jpg:
+                    img = f.image
+                    view = np.ascontiguousarray(np.swapaxes(img, 0, 1)).swapaxes(0, 1)      # same logical pixels, axis-permuted (non C-contiguous) memory
+                    view.flags.writeable = bool(k[2])
+                    f = type(f)(view, f.data, f.format)
+                if not ne:
+                    f = type(f)(f, {})
+                frames[('main', '_hidden')[i]] = f
+            obs += self._roundtrip(frames, info, np, RMQ, ' (strided image)' if strided else '')
+        return {'confirmed': bool(obs), 'inputs': info, 'observed': obs or 'round trip ok natively', 'required': 'decode(encode(x)) preserves topics, data, image presence, shape/format, pixels'}
+
+    def _roundtrip(self, frames, info, np, RMQ, tag):
         obs = []
         try:
             back = RMQ.topicmsgs2frames(RMQ.frames2topicmsgs(frames, info['outs_jpg']))
@@ -178,7 +189,7 @@ class CodecUnit(Unit):
                     obs.append(f'{t}: decoded shape differs')
         except Exception as e:
             obs.append(f'raises {type(e).__name__}: {e}')
-        return {'confirmed': bool(obs), 'inputs': info, 'observed': obs or 'round trip ok natively', 'required': 'decode(encode(x)) preserves topics, data, image presence, shape/format, pixels'}
+        return [o + tag for o in obs]
 
     def crosscheck(self, n, seed):
         import numpy as np
